@@ -92,6 +92,35 @@ PROGRAMS = {
     }
     %r2 = riscv.add %res, %k : (!riscv.reg, !riscv.reg) -> !riscv.reg
     %out = riscv.mv %r2 : (!riscv.reg) -> !riscv.reg<a0>""", {"a0": (-1, 3)}),
+    "loop_init_then_temps": ("""
+    %lb = rv32.li 0 : !riscv.reg
+    %one = rv32.li 1 : !riscv.reg
+    %init = rv32.li 1001 : !riscv.reg
+    %u0 = riscv.addi %p, 2 : (!riscv.reg<a1>) -> !riscv.reg
+    %u1 = riscv.addi %p, 5 : (!riscv.reg<a1>) -> !riscv.reg
+    %u2 = riscv.addi %p, 3 : (!riscv.reg<a1>) -> !riscv.reg
+    %u3 = riscv.addi %p, 4 : (!riscv.reg<a1>) -> !riscv.reg
+    %v0 = riscv.mul %u0, %u1 : (!riscv.reg, !riscv.reg) -> !riscv.reg
+    %v1 = riscv.mul %u2, %u3 : (!riscv.reg, !riscv.reg) -> !riscv.reg
+    %w = riscv.mul %v0, %v1 : (!riscv.reg, !riscv.reg) -> !riscv.reg
+    %ub = riscv.add %w, %n : (!riscv.reg, !riscv.reg<a0>) -> !riscv.reg
+    %res = riscv_scf.for %i : !riscv.reg = %lb to %ub step %one iter_args(%acc = %init) -> (!riscv.reg) {
+      %t = riscv.add %acc, %i : (!riscv.reg, !riscv.reg) -> !riscv.reg
+      riscv_scf.yield %t : !riscv.reg
+    }
+    %out = riscv.mv %res : (!riscv.reg) -> !riscv.reg<a0>""", {"a0": (-1, 3), "a1": (-5, -2)}),
+    "loop_init_two_temps": ("""
+    %lb = rv32.li 1 : !riscv.reg
+    %one = rv32.li 1 : !riscv.reg
+    %init = rv32.li 1001 : !riscv.reg
+    %u0 = rv32.li 1002 : !riscv.reg
+    %u1 = riscv.addi %n, 1 : (!riscv.reg<a0>) -> !riscv.reg
+    %ub = riscv.add %u0, %u1 : (!riscv.reg, !riscv.reg) -> !riscv.reg
+    %res = riscv_scf.for %i : !riscv.reg = %lb to %ub step %one iter_args(%acc = %init) -> (!riscv.reg) {
+      %t = riscv.add %acc, %i : (!riscv.reg, !riscv.reg) -> !riscv.reg
+      riscv_scf.yield %t : !riscv.reg
+    }
+    %out = riscv.mv %res : (!riscv.reg) -> !riscv.reg<a0>""", {"a0": (-1, 2), "c1002": (0, 1)}),
     "nested_loops": ("""
     %lb = rv32.li 0 : !riscv.reg
     %one = rv32.li 1 : !riscv.reg
